@@ -88,6 +88,10 @@ class MidiFile(object):
                 duration = float(deltatime) / (ticks_per_beat * 4.0)
                 if duration != 0.0:
                     duration = 1.0 / duration
+                    if len(b.bar) == 0:
+                        # time passing before the first entry is a rest; the
+                        # code below gives it its length
+                        b + NoteContainer()
                     if len(b.bar) > 0:
                         current_length = b.bar[-1][1]
                         b.bar[-1][1] = duration
